@@ -28,6 +28,10 @@ package webdoc
 
 import (
 	"bytes"
+	"strings"
+
+	"github.com/markusmobius/go-domdistiller/internal/domutil"
+	"golang.org/x/net/html"
 )
 
 // Document is a simplified view of the underlying webpage. It contains the
@@ -46,20 +50,25 @@ func (doc *Document) AddElements(elements ...Element) {
 
 func (doc *Document) GenerateOutput(textOnly bool) string {
 	buffer := bytes.NewBuffer(nil)
+	afterText := false
 	for _, e := range doc.Elements {
 		if !e.IsContent() {
 			continue
 		}
 
 		output := e.GenerateOutput(textOnly)
+		_, isText := e.(*Text)
 
-		// Two bare text runs emitted back to back (text blocks inside one list item,
-		// quote or pre are rendered without a wrapper of their own) would be read
-		// as one word where they meet: keep them apart.
-		if !textOnly && output != "" && output[0] != '<' && buffer.Len() > 0 {
-			if last := buffer.Bytes()[buffer.Len()-1]; last != '>' && last != ' ' && last != '\n' {
-				buffer.WriteString(" ")
-			}
+		// Two pieces of running text emitted back to back - bare text runs (text blocks
+		// inside one list item, quote or pre are rendered without a wrapper of their own)
+		// or inline elements that sat directly in the body - would be read as one word
+		// where they meet: keep them apart.
+		if !textOnly && isText && afterText && startsWithRunningText(output) && endsWithRunningText(buffer.Bytes()) {
+			buffer.WriteString(" ")
+		}
+
+		if output != "" {
+			afterText = isText
 		}
 
 		buffer.WriteString(output)
@@ -136,4 +145,47 @@ func (doc *Document) getNextTextIndex(startIndex int) int {
 	}
 
 	return len(doc.Elements)
+}
+
+// startsWithRunningText reports whether the markup starts with bare text or an inline element.
+func startsWithRunningText(markup string) bool {
+	if markup == "" {
+		return false
+	}
+
+	if markup[0] != '<' {
+		return markup[0] != ' ' && markup[0] != '\n'
+	}
+
+	return isInlineTagAt(markup[1:])
+}
+
+// endsWithRunningText reports whether the markup ends with bare text or an inline element.
+func endsWithRunningText(markup []byte) bool {
+	if len(markup) == 0 {
+		return false
+	}
+
+	last := markup[len(markup)-1]
+	if last != '>' {
+		return last != ' ' && last != '\n'
+	}
+
+	tagStart := bytes.LastIndexByte(markup, '<')
+	if tagStart < 0 {
+		return false
+	}
+
+	return isInlineTagAt(strings.TrimPrefix(string(markup[tagStart+1:]), "/"))
+}
+
+// isInlineTagAt reports whether the tag whose name starts the string is an inline element.
+func isInlineTagAt(s string) bool {
+	end := strings.IndexAny(s, " />")
+	if end <= 0 {
+		return false
+	}
+
+	node := &html.Node{Type: html.ElementNode, Data: strings.ToLower(s[:end])}
+	return node.Data != "br" && domutil.GetDisplayStyle(node) == "inline"
 }
